@@ -44,7 +44,11 @@ def generate(seed, run, tier):
             spec['actions'].append('ACTUATE')
     rec['clients'] = [spec]
     n = r.randint(30, 120 if not big else 400)
-    rec['ops'] = common.world_ops(r, spec, n, weights=dict(fobs=0, read_obs=0.1, turnpair=0.1, guided=3))
+    def fork(r):
+        return [[0, 'fork_inplace', r.randrange(64), [r.choice([6, 6, 6, 7, r.randrange(8)]) for _ in range(r.randint(1, 4))]]]
+
+    rec['ops'] = common.world_ops(r, spec, n, p_fault=0.08 if spec['kind'] == 'hand' else 0.0, fault_gen=fork,
+                                  weights=dict(fobs=0, read_obs=0.1, turnpair=0.1, guided=3))
     if spec['kind'] == 'yaml':
         # fetch the key, go to the door, open it, walk on
         plan = [[0, 'guided', 'facing', 'Key', 0]] * 12 + [[0, 'guided', 'facing', 'Door', 0]] * 14 + [[0, 'guided', 'on', 'Exit', 0]] * 14
@@ -62,6 +66,8 @@ def plant_door_scene(r, w, colors, unique, types=None):
         return
     dc = r.choice(colors)
     w['cells'][fy][fx] = ['Door', r.choice(['LOCKED', 'LOCKED', 'CLOSED', 'OPEN']), dc]
+    if types is not None and 'Box' in types and r.random() < 0.25:
+        w['cells'][fy][fx] = ['Box', w['cells'][fy][fx]]  # a door inside a box: two actuations needed
     m = r.random()
     if types is not None and 'Key' not in types:
         m = 0.85  # only declared types may be held
@@ -191,8 +197,39 @@ def _acause(w, a):
     return a + '_front_' + c[0] + ('_' + c[1] if c[0] == 'Door' else '')
 
 
+def op_fork_inplace(sim, cl, i, ks):
+    """the simulated caller duplicates a state with copy.deepcopy and drives the duplicate with the (in-place)
+    transition function; doors and boxes of the ORIGINAL state must not react to actions taken elsewhere"""
+    import copy
+
+    from gvsim.lib import ACTIONS, action_of, world_of
+    from gvsim.sim import sut
+
+    if not cl.pool or not cl.proxied:
+        return
+    s = cl.pool[i % len(cl.pool)]
+    before = world_of(s)
+    t = sut(copy.deepcopy, s)
+    sim.ctx.fault('caller_deepcopy_then_inplace_steps')
+    if isinstance(t, Raised):
+        return
+    for k in ks:
+        a = ACTIONS[k % 8]
+        if a not in cl.actions:
+            continue
+        r = sut(cl.transition, t, action_of(a), rng=getattr(cl.env, '_rng', None))
+        if isinstance(r, Raised):
+            break
+    sim.ctx.log('fork_inplace', world_of(t)['agent'])
+    after = world_of(s)
+    if after != before:
+        sim.violate('actuation', 'door_or_box_changed_without_action', 'other_state_driven_in_place', common.world_diff(before, after),
+                    f'actions applied to a deepcopy of the state changed the state itself: {common.world_diff(before, after)}')
+
+
 def execute(record, ctx):
     sim = Sim(record, ctx, [Actuation()])
+    sim.op_fork_inplace = lambda cl, *a: op_fork_inplace(sim, cl, *a)
     sim.run()
     probes = sum(n for k, n in ctx.stats.items() if k.startswith('probe:') and not k.startswith('probe:guided'))
     if ctx.ticks >= 10 and probes > 0:
